@@ -3,4 +3,4 @@ From Mamba Require Import Search.Model Search.ShardModel Search.ShardPreds Searc
 Extraction Language OCaml.
 Extraction "model.ml" outputs init p_edges3 p_maxdeg2 p_triangle p_none
   check_upto check_level check_graph check_perm check_orb check_ksub check_early label_check label_pair_check
-  vbs_all vbs_deg vbs_mixed all_graphs get_aut vg_of_edges ksub_real.
+  vbs_all vbs_deg vbs_mixed all_graphs get_aut vg_of_edges ksub_real is_canonical add_augs.
